@@ -1221,3 +1221,46 @@ def k15(ctx):
 
 
 RULES.append(k15)
+
+
+@rule("K16", cfgs=EXPL, doc="a symmetry carried over on a class merge keeps a proof of ITS equation: with F the find-proof of the deprecated invocation (deprecated -> survivor), the transported proof is symmetry(F) ; generator's own proof ; F — survivor -> deprecated -> deprecated*perm -> survivor")
+def k16(ctx):
+    crate = ctx.lib()
+    reg = C.merge_region(crate)
+    n = 0
+    for fid in sorted(reg["members"]):
+        root = crate.bodies[fid]
+        for b in root.all_bodies():
+            for bi, f in _aggs(b, "perm::ProvenPerm"):
+                pr = f.get("proof", "")
+                if not pr.startswith("prove_transitivity("):
+                    continue
+                n += 1
+                # structure: T(self, X, T(self, G, Y))  or  T(self, T(self, X, G), Y)
+                roles = [x for x in role_walk(strip_role(b.role_of_rvalue([s for bi2, si2, s in b.statements() if bi2 == bi and s["k"] == "assign" and s["rv"]["k"] == "agg" and str(s["rv"].get("adt", "")).endswith("perm::ProvenPerm")][0]["rv"]))) if isinstance(x, tuple) and x[0] == "call" and x[1] == "prove_transitivity"]
+                leaves = []
+
+                def flat(r):
+                    r0 = strip_role(r)
+                    if isinstance(r0, tuple) and r0[0] == "call" and r0[1] == "prove_transitivity" and len(r0[3]) >= 2:
+                        flat(r0[3][-2])
+                        flat(r0[3][-1])
+                    else:
+                        leaves.append(r0)
+                flat(roles[0])
+                ok = False
+                why = "chain of %d steps" % len(leaves)
+                if len(leaves) == 3:
+                    x, g, y = leaves
+                    is_sym = isinstance(x, tuple) and x[0] == "call" and x[1] == "prove_symmetry"
+                    inner = strip_role(x[3][-1]) if is_sym else None
+                    gen_own = isinstance(g, tuple) and g[0] == "field" and g[2] == "proof"
+                    y_find = role_mentions_call(y, "proven_find_applied_id") and not role_mentions_call(y, "prove_symmetry")
+                    ok = is_sym and gen_own and y_find and inner == y
+                    why = "first step %s, middle %s, last %s" % ("symmetry(F)" if is_sym and inner == y else role_str(x)[:40], "generator's proof" if gen_own else role_str(g)[:40], "F" if y_find else role_str(y)[:40])
+                ctx.check(ok, "transport-proof-chain:" + C.fkey(root), "the transported generator's proof is symmetry(F) ; generator.proof ; F",
+                          "%s pairs a transported symmetry with the proof chain (%s): it must run survivor -> deprecated (the REVERSED find-proof), deprecated -> deprecated*perm (the generator's own proof), deprecated*perm -> survivor (the find-proof) — in any other order the class ids of adjacent steps do not meet and the transitivity kernel panics whenever a class with a symmetry is merged away" % (C.short(fid), why), where_of(b, bi))
+    ctx.floor("proofs of transported symmetries in the merge region", n, 1)
+
+
+RULES.append(k16)
